@@ -5,7 +5,7 @@ CONSTANTS
   Timers = {FALSE, TRUE}
   Quotas <- AllQuotas
   NFiresSet = {}
-  MaxFires = 2
+  MaxFires = 3
   Mutant = "none"
   WithStop = TRUE
 INVARIANT Report
